@@ -1430,7 +1430,18 @@ func (iter *iterV) next(it *Interp) Value {
 	for len(iter.keys) > 0 {
 		idx := 0
 		if it.mapOrder && len(iter.keys) > 1 {
-			idx = it.chooseN(len(iter.keys), "maporder")
+			// every iteration order is explored; the choice is part of the counterexample so that it can be re-executed
+			tag := it.nextTag("maporder")
+			if it.R.Pinned != nil {
+				v, _ := it.pinned(tag)
+				idx = int(bigFromDec(v).Int64())
+				if idx < 0 || idx >= len(iter.keys) {
+					idx = 0
+				}
+			} else {
+				idx = it.chooseN(len(iter.keys), tag)
+			}
+			it.choices[tag] = fmt.Sprint(idx)
 		}
 		k := iter.keys[idx]
 		iter.keys = append(append([]string{}, iter.keys[:idx]...), iter.keys[idx+1:]...)
